@@ -1,6 +1,6 @@
 """C07 — header rows are skipped; the validation limit bounds validation, not data.
 
-Explorer (P), full product: header 0..3 x data rows 0..6 x limit {none, 0..rows+1} x position of a
+Explorer (P), full product (delimited and fixed; ODS and Excel with smaller tables): header 0..3 x data rows 0..6 x limit {none, 0..rows+1} x position of a
 single bad row (also inside the header) x kind of bad row x API {rows in each mode, validate,
 command line --until} x {delimited, fixed}.  Oracle: closed formula of the statement.
 """
@@ -10,6 +10,7 @@ import os
 
 from mc import engine, harness, readermachine
 from mc.core import Part
+from mc.models import rowmodel
 from mc.props import c06
 
 MOD = "mc.props.c07"
@@ -40,7 +41,7 @@ def build_table(header, data_rows, bad_at, bad_kind, multiline_header=False, all
 
 def cid_file(config):
     decls = readermachine.decls_for(config)
-    rows = harness.cid_rows(config["preset"], decls, (), config["header"], line_delimiter="lf", extra=list(config.get("extra", ())))
+    rows = harness.cid_rows(config["preset"], decls, (), config["header"], line_delimiter="lf" if config["preset"] in ("delimited", "fixed") else None, extra=list(config.get("extra", ())))
     path = os.path.join(readermachine.tmpdir(), "cid_%s_%d%s.csv" % (config["preset"], config["header"], "_allowed" if config.get("extra") else ""))
     if not os.path.exists(path):
         with open(path, "w", newline="", encoding="utf-8") as cid_stream:
@@ -65,7 +66,7 @@ def judge(case, part):
     part.evaluations += 1
     if bad_at is not None:
         part.nontrivial += 1
-    stored = [[c.ljust(d["width"]) for c, d in zip(r, decls)] for r in table] if decls[0]["fmt"] == "fixed" else table
+    stored = rowmodel.stored_rows(decls[0]["fmt"], decls, table)  # fixed: padded cells; excel: rows as wide as the sheet
     data_rows = stored[header:]
     bad_index = None if bad_at is None else bad_at - header - 1
     # rows API, three modes
@@ -108,7 +109,8 @@ def judge(case, part):
         source, _ = readermachine.store(config, decls, table)
         reader = cutplace.Reader(cid, source, on_error=mode, validate_until=limit)
         for pass_number in (1, 2, 3):
-            source.seek(0)
+            if not isinstance(source, str):
+                source.seek(0)
             reader_events, raised = [], None
             try:
                 if pass_number == 2 and not rejects:
@@ -156,9 +158,12 @@ def judge(case, part):
     if case.get("cli", True):
         cid_path = cid_file(config)
         source, _ = readermachine.store(config, decls, table)
-        data_path = os.path.join(readermachine.tmpdir(), "cli_data_%d.txt" % os.getpid())
-        with open(data_path, "w", newline="", encoding="cp1252") as data_stream:
-            data_stream.write(source.getvalue())
+        if isinstance(source, str):
+            data_path = source
+        else:
+            data_path = os.path.join(readermachine.tmpdir(), "cli_data_%d.txt" % os.getpid())
+            with open(data_path, "w", newline="", encoding="cp1252") as data_stream:
+                data_stream.write(source.getvalue())
         variants = [["--until", str(limit)]] if limit is not None else [[], ["--until", "-1"]]
         for options in variants:
             try:
@@ -175,7 +180,7 @@ def judge(case, part):
 
 def enumerate_cases(preset, header, max_rows=6):
     cases = []
-    kinds = ["cell", "cell2"] if preset == "fixed" else ["cell", "cell2", "short", "long"]
+    kinds = ["cell", "cell2"] if preset in ("fixed", "ods", "excel") else ["cell", "cell2", "short", "long"]
     for rows in range(0, max_rows + 1):
         total = header + rows
         for limit in [None] + list(range(0, total + 2)):
@@ -185,6 +190,8 @@ def enumerate_cases(preset, header, max_rows=6):
                     if preset == "fixed" and bad_at <= header and kind == "cell2":
                         pass
                     cases.append({"preset": preset, "header": header, "rows": rows, "limit": limit, "bad_at": bad_at, "bad_kind": kind})
+    if preset in ("ods", "excel"):
+        return cases
     # with an allowed-characters declaration: header rows and rows behind the limit may hold any character
     cases += [dict(case, allowed=True, bad_kind="char" if case["bad_kind"] == "cell2" else case["bad_kind"]) for case in cases if case["rows"] <= 4 and case["bad_kind"] in (None, "cell", "cell2")]
     if preset == "delimited" and header:
@@ -207,7 +214,11 @@ def run(ctx):
     thorough = ctx.tier == "thorough"
     max_rows, max_header, parts = (10, 5, 16) if thorough else (6, 3, 4)
     items = [(preset, header, chunk, parts, max_rows) for preset in ("delimited", "fixed") for header in range(0, max_header + 1) for chunk in range(parts)]
+    # spreadsheet formats: the same rule, smaller tables (every case writes files)
+    sheet_rows, sheet_header = (5, 3) if thorough else (3, 2)
+    items += [(preset, header, chunk, 2, sheet_rows) for preset in ("ods", "excel") for header in range(0, sheet_header + 1) for chunk in range(2)]
     total = sum(len(enumerate_cases(p, h, max_rows)) for p in ("delimited", "fixed") for h in range(max_header + 1))
+    total += sum(len(enumerate_cases(p, h, sheet_rows)) for p in ("ods", "excel") for h in range(sheet_header + 1))
     ctx.bound = {"cases": total, "header": "0..%d" % max_header, "data rows": "0..%d" % max_rows, "limit": "none, 0..rows+header+1", "header rows": "plain; delimited also with quoted line breaks and quotes inside header cells", "bad row": "none or one at every position 1..rows+header (also inside the header); kinds: bad cell (2 kinds), one item short, one item long (delimited)",
                  "apis": ["cutplace.rows x 3 modes", "cutplace.validate", "applications.main --until (and --until -1 / absent for no limit)"]}
     ctx.rule = "full product, no sampling; non-trivial = case with a bad row; oracle: rejection reported iff position > header and (no limit or position <= limit); states = (format, header) configurations"
